@@ -22,7 +22,7 @@ from harness import pyast_wire as W
 
 META = {
     "id": "C03",
-    "technique": "Coq proof (soundness of a line-by-line model of _eval_const w.r.t. the reference Python semantics Lang/PySem.v by induction over expressions; closedness of name-free folds; a model of the constant environment with shared list objects across if / while / for, its staleness refuted by computed witnesses, and a simulation theorem - residual program with baked-in constants = source program on every control-flow path - inside a freshness guard, by induction over nested statement blocks) + extracted-model correspondence with the real _eval_const/_expr_has_name/_to_c_expr/parse() + CPython and compiled-firmware oracles",
+    "technique": "Coq proof (soundness of a line-by-line model of _eval_const w.r.t. the reference Python semantics Lang/PySem.v by induction over expressions; closedness of name-free folds; a model of the constant environment with shared list objects across if / while / for, its staleness refuted by computed witnesses, and a simulation theorem - residual program with baked-in constants = source program on every control-flow path - inside a freshness guard, by induction over nested statement blocks; a second simulation for the module-level split between static global initialisers, which run before setup(), and run-time assignments: hoisting is invisible because only closed constant right-hand sides are hoisted, refuted for the variant without the name-free test) + extracted-model correspondence with the real _eval_const/_expr_has_name/_to_c_expr/parse() + CPython and compiled-firmware oracles",
     "level_text": "Theorems C03_* (coq/Props/C03.v) are proved for all expressions / environments about Gallina models of _eval_const, _expr_has_name, _literal_length, the folding call sites and the flow-insensitive constant environment (len(name), flash_pattern(name), lcd.glyph bitmaps; append / remove bookkeeping; dict copies sharing list objects) (operator and cast tables regenerated from parser.py on every run); soundness holds inside an explicit guard and is refuted outside it by computed witnesses that are replayed on the real transpiler (listed findings); the models are run against the real functions on generated expressions, environments and programs, and the property itself (folded value = CPython value; firmware observations = CPython observations) is evaluated on the real artefacts for every generated case inside the guard.",
     "level_note": "Trusted: Coq kernel, the reference semantics Lang/PySem.v (validated against CPython by harness/pysem_check.py), translator harness/gen/safecasts.py, extraction, OCaml driver, the mock Arduino core + g++ as 'device', CPython 3.12 as 'what Python means'. The theorems are about the models; the correspondence bounds their distance from parser.py. Floats are exact rationals in the model: value comparisons are made only where every intermediate float is a binary64 value (measured per case).",
     "design_ref": "DESIGN.md section 4 C03",
@@ -364,8 +364,8 @@ class ProgGen:
     """env: transpile-time view {name: ('K', value) | ('M',)}; guarded=True keeps every program inside the guard of
     C03_env_fresh_partial (no write to a known name inside a block that may be skipped or repeated, ...)"""
 
-    def __init__(self, rng, guarded, maxdepth):
-        self.rng, self.guarded, self.maxdepth = rng, guarded, maxdepth
+    def __init__(self, rng, guarded, maxdepth, tuples=False):
+        self.rng, self.guarded, self.maxdepth, self.tuples = rng, guarded, maxdepth, tuples
         self.forbid = []
         self.main_bound = None
         self.loop_bound = []
@@ -384,6 +384,10 @@ class ProgGen:
 
     def known(self, env, names):
         return [x for x in names if env.get(x, (None,))[0] == "K"]
+
+    def levels(self, env):
+        """known int names whose value can be a flash-pattern entry (0..255: what analogWrite takes unclamped)"""
+        return [x for x in self.known(env, INT_N) if 0 <= env[x][1] <= 255]
 
     def bound(self, env, names):
         return [x for x in names if x in env]
@@ -448,6 +452,18 @@ class ProgGen:
                     env[x] = ("M",)
                     return ("aug", x, op, e)
                 continue
+            if q < 0.19 and depth == 0 and self.tuples and self.main_bound is None:
+                # tuple assignment to declared names (the temporaries path): all right-hand sides are evaluated first
+                xs = [x for x in self.bound(env, INT_N) if self.writable(env, x)]
+                if len(xs) >= 2:
+                    a, b = rng.sample(xs, 2)
+                    es = [b, a] if rng.random() < 0.5 else [self.int_expr(env), self.int_expr(env)]
+                    vs = [self.evalk(env, e) for e in es]
+                    if any(v[0] == "K" and not (0 <= v[1] <= 999) for v in vs):
+                        continue
+                    env[a], env[b] = vs
+                    return ("tuple", [a, b], es)
+                continue
             r = rng.random()
             if r < 0.16:
                 x = rng.choice(INT_N)
@@ -467,7 +483,7 @@ class ProgGen:
             elif r < 0.38:
                 x = rng.choice(LIST_N)
                 if x not in env and self.writable(env, x):
-                    items = [rng.choice([str(rng.randint(0, 9)), "1", "0"] + self.known(env, INT_N)) for _ in range(rng.randint(0, 4))]
+                    items = [rng.choice([str(rng.randint(0, 9)), "1", "0"] + self.levels(env)) for _ in range(rng.randint(0, 4))]
                     e = "[" + ", ".join(items) + "]"
                     env[x] = self.evalk(env, e)
                     return ("assign", x, e)
@@ -482,7 +498,7 @@ class ProgGen:
                     x = rng.choice(ls)
                     if not self.writable(env, x):
                         continue
-                    choices = [str(rng.randint(0, 9))] * 3 + self.known(env, INT_N)
+                    choices = [str(rng.randint(0, 9))] * 3 + self.levels(env)
                     if not self.guarded:
                         choices += [y for y in self.bound(env, RT_N)]
                     e = rng.choice(choices)
@@ -571,6 +587,8 @@ class ProgGen:
         out = set()
         if st[0] in ("assign", "append", "remove", "rt", "aug"):
             out.add(st[1])
+        elif st[0] == "tuple":
+            out |= set(st[1])
         elif st[0] == "if":
             for x in st[1] + st[2]:
                 out |= ProgGen.written(x)
@@ -626,7 +644,19 @@ class ProgGen:
             v = self.evalk(env, e)
             if v[0] == "K" and names is INT_N and not (-999 <= v[1] <= 999):
                 continue
-            pre.append(("assign", d, e)); env[d] = v
+            free2 = [x for x in free if x != d]
+            if self.tuples and free2 and rng.random() < 0.6:
+                d2 = rng.choice(free2)
+                e2 = str(rng.randint(0, 9)) if names is INT_N else repr(rng.choice(STRS))
+                pair = [(d, e, v), (d2, e2, self.evalk(env, e2))]
+                if rng.random() < 0.5:
+                    pair.reverse()
+                pre.append(("tuple", [x for x, _, _ in pair], [y for _, y, _ in pair]))
+                for x, _, w in pair:
+                    env[x] = w
+                pre.append(("val", d2))
+            else:
+                pre.append(("assign", d, e)); env[d] = v
             pre.append(("val", d))
             if names is STR_N and rng.random() < 0.5:
                 pre.append(("len", d))
@@ -736,6 +766,8 @@ def render_prog(p, sfx, header=True):
                 lines.append(f"{pad}led.flash_pattern({rn(s[1])}, 3)")
             elif k == "glyph":
                 lines.append(f"{pad}lcd.glyph(0, [{', '.join(rn(x) for x in s[1])}])")
+            elif k == "tuple":
+                lines.append(f"{pad}{', '.join(rn(x) for x in s[1])} = {', '.join(rn(x) for x in s[2])}")
             elif k == "val":
                 lines.append(f"{pad}mon.write({rn(s[1])})")
             elif k == "aug":
@@ -875,6 +907,19 @@ WITNESSES = {
 }
 
 
+def has_tuple(p):
+    for s in p:
+        if s[0] == "tuple":
+            return True
+        if s[0] == "if" and (has_tuple(s[1]) or has_tuple(s[2])):
+            return True
+        if s[0] in ("while", "main") and has_tuple(s[1]):
+            return True
+        if s[0] == "for" and has_tuple(s[2]):
+            return True
+    return False
+
+
 def prog_name(x):
     """is x one of the generated program's variables (rendered with the suffix _0)?"""
     return x.endswith("_0") and x[:-2] in ALLV
@@ -959,6 +1004,11 @@ def layer_b(ctx, stats):
         g = (i % 5) != 4                       # 80 % inside the guard (these feed the oracle), 20 % anything
         progs.append(ProgGen(rng, g, 3 if thorough and i % 3 == 0 else 2).program(main=(i % 4 == 1)))
         guarded.append(g)
+    # tuple assignment (not in the Coq model: no correspondence, only the oracle, on programs the generator keeps
+    # inside the guard by construction)
+    for i in range(n // 5):
+        progs.append(ProgGen(rng, True, 2, tuples=True).program(main=(i % 4 == 1)))
+        guarded.append(True)
     def count(b, depth):
         for st in b:
             stats[f"stmt:{st[0]}@depth{depth}"] += 1
@@ -975,13 +1025,19 @@ def layer_b(ctx, stats):
     progs, guarded, walks = [progs[i] for i in keep], [guarded[i] for i in keep], [walks[i] for i in keep]
     orcs, drs, ars, loops = [w[0] for w in walks], [w[1] for w in walks], [w[2] for w in walks], [w[4] for w in walks]
     real, scripts, n_sk = run_real(progs, drs, ars, batch=10 if thorough else 8, loops=loops)
-    model = ctx.model([[1, wire_prog(p), o] for p, o in zip(progs, orcs)]) if ctx.exe else [None] * len(progs)
+    modelled = [i for i, p in enumerate(progs) if not has_tuple(p)]
+    model = [None] * len(progs)
+    if ctx.exe:
+        for i, m in zip(modelled, ctx.model([[1, wire_prog(progs[i]), orcs[i]] for i in modelled])):
+            model[i] = m
     distinct = set()
     samples = []
     for idx, (p, g, o, r, m, s) in enumerate(zip(progs, guarded, orcs, real, model, scripts)):
         body = s[len(HEADER):]
         case = {"script": s, "dr4": None, "oracle": o}
         stats["prog:" + r["status"].split(":")[0]] += 1
+        if has_tuple(p):
+            stats["prog:tuple-assignment (oracle only)"] += 1
         fresh = g
         if m is not None:
             if m == [2]:
@@ -1072,13 +1128,15 @@ def run(ctx: C.Ctx):
         "distinct_nontrivial": d_a + d_b,
         "programs": n_b,
         "sketches_compiled": n_sk,
-        "rule": "A: boundary expressions (every node kind _eval_const looks at, each operator with int/float/bool/str operands, error sources, hostile forms) x 3-5 environments (known int/float/bool/str/list/tuple, a marker, an unbound name), then seeded random expressions (harness/pyast_wire.gen_expr, depth 1-4) - each through the extracted model and the real _eval_const/_expr_has_name/_to_c_expr, a sample also through parse() at the blink/backlight/glyph/sleep call sites with the environment set up by assignments; non-trivial (A) = distinct (expression, environment) on which the real evaluator returned a value inside the guard and the CPython comparison ran. B: seeded programs (assign / run-time read / append / remove / len(name) / flash_pattern(name) / lcd.glyph(0, [rows]) under if, while, for and - every fourth program - the sketch's main loop `while True:` run 1-3 passes; 80 % generated inside the guard) with one seeded execution path each (branches taken or not, loops 0-3 times): real parse() IR vs model residual, CPython run vs model reference semantics, firmware run (batched sketches, g++, mock core) vs model firmware outputs; non-trivial (B) = distinct program inside the guard that ran on both sides with >= 2 observations.",
+        "rule": "A: boundary expressions (every node kind _eval_const looks at, each operator with int/float/bool/str operands, error sources, hostile forms) x 3-5 environments (known int/float/bool/str/list/tuple, a marker, an unbound name), then seeded random expressions (harness/pyast_wire.gen_expr, depth 1-4) - each through the extracted model and the real _eval_const/_expr_has_name/_to_c_expr, a sample also through parse() at the blink/backlight/glyph/sleep call sites with the environment set up by assignments; non-trivial (A) = distinct (expression, environment) on which the real evaluator returned a value inside the guard and the CPython comparison ran. B: seeded programs (assign / augmented assign / run-time read / append / remove / len(name) / flash_pattern(name) / lcd.glyph(0, [rows]) / mon.write(name) = the run-time value of a variable; at module level a 'retune' pattern: a constant is re-assigned and then used in the FIRST assignment of another module-level name, which is then printed - the static-initialiser vs run-time-assignment split; a fifth of the programs additionally use tuple assignment, oracle only) under if, while, for and - every fourth program - the sketch's main loop `while True:` run 1-3 passes; 80 % generated inside the guard) with one seeded execution path each (branches taken or not, loops 0-3 times): real parse() IR vs model residual (folded constants; which module-level first assignments became static initialisers and which stayed in setup()), CPython run vs model reference semantics, firmware run (batched sketches, g++, mock core) vs model firmware outputs; non-trivial (B) = distinct program inside the guard that ran on both sides with >= 2 observations.",
         "samples": [{"expr": x} for x in s_a] + [{"program": x} for x in s_b],
         "distribution": dict(sorted(stats.items())),
-        "guard": "A: in_guard (no one-argument max/min; unary plus only on int/float operands - decided by CPython in the oracle), no variable named like a builtin of _SAFE_NAME_REFERENCES. B: is_fresh (ConstEnv.tblock's ghost flag): no assignment / append / remove to a name with a known transpile-time value inside an if / while / for body, remove only of a known value that is present, append only of a known value - outside: findings F-C03-*",
+        "guard": "A: in_guard (no one-argument max/min; unary plus only on int/float operands - decided by CPython in the oracle), no variable named like a builtin of _SAFE_NAME_REFERENCES. B: is_fresh (ConstEnv.tblock's ghost flag): no assignment / append / remove to a name with a known transpile-time value inside an if / while / for body, remove only of a known value that is present, append only of a known value - outside: findings F-C03-*; split_ok = is_fresh and the hoisting side conditions of C03_global_split_partial (always true for generated programs: no for-loop variable is assigned elsewhere)",
         "unmodelled": ["IEEE specials, float results that are not exactly representable are compared only CPython-vs-implementation (exact), not against the rational model",
                        "sensor model names (ast.literal_eval fallback), pin folding in device constructors (same _resolve pattern; only blink/backlight/glyph/sleep sites are run)",
-                       "list aliasing between variables (b = a), tuple assignment, augmented assignment, flash_pattern / glyph with an inline literal containing names (ast.literal_eval path) in the environment model",
+                       "list aliasing between variables (b = a), flash_pattern / glyph with an inline literal containing names (ast.literal_eval path) in the environment model",
+                       "tuple assignment is not in the Coq model: programs using it (module level, all-new or all-declared int / str names) only go through the firmware-vs-CPython oracle",
+                       "try / def bodies (child contexts like if / while / for), elif chains (modelled as an if nested in the else branch, not generated), names promoted out of blocks are not listed among the model's globals",
                        "str(float) / float(str) / complex results: OutOfModel in PySem (skipped, counted)"],
         "trusted_base": C.COMMON_TRUSTED + ["harness/gen/safecasts.py (operator / cast / safe-name tables of parser.py)",
                                             "Lang/PySem.v as the meaning of Python expressions (validated against CPython by harness/pysem_check.py)",
